@@ -205,6 +205,24 @@ fn verify_global_specs(g_specs: &[SideMetadataSpec]) -> Result<()> {
     Ok(())
 }
 
+/// Verification hooks: the overlap predicates, observable as booleans.
+#[cfg(mmtk_verif)]
+pub mod verif {
+    use super::SideMetadataSpec;
+    pub fn verify_no_overlap_contiguous(a: &SideMetadataSpec, b: &SideMetadataSpec) -> bool {
+        super::verify_no_overlap_contiguous(a, b).is_ok()
+    }
+    pub fn verify_global_specs(specs: &[SideMetadataSpec]) -> bool {
+        super::verify_global_specs(specs).is_ok()
+    }
+    pub fn verify_global_specs_total_size(specs: &[SideMetadataSpec]) -> bool {
+        super::verify_global_specs_total_size(specs).is_ok()
+    }
+    pub fn verify_local_specs_size(specs: &[SideMetadataSpec]) -> bool {
+        super::verify_local_specs_size(specs).is_ok()
+    }
+}
+
 // Clippy likes this
 impl Default for SideMetadataSanity {
     fn default() -> Self {
